@@ -1,7 +1,244 @@
 import CddVerif.Driver.Basic
-/-! Driver ops for C04 (line protocol; see Main.lean). Only Mathlib-free imports here. -/
-namespace Driver.C04
-open Lean Driver
+import CddVerif.Model.EmitIface
+import CddVerif.Model.EmitIfaceSpec
+/-! Driver ops for C04 (line protocol; see Main.lean). Only Mathlib-free imports here.
 
-def ops : List (String × Handler) := []
+* `c04.class`    IR + bases            → predicted attribute statements and `classAttrs`
+* `c04.function` IR + cfg              → predicted `arguments(...)` record and `signature`
+* `c04.argparse` IR + argvs + probes   → predicted `add_argument` keywords, actions, `parseArgs argv`, `accepts`
+* `c04.describe` domain description    → `toIR`, `WF`, and the described interface (`describe…` of the spec file)
+-/
+namespace Driver.C04
+open Lean Driver EmitIface
+
+def field (j : Json) (k : String) : Except String Json := j.getObjVal? k
+def kind (j : Json) : Except String String := do (← field j "k").getStr?
+def isNull (j : Json) (k : String) : Bool := match j.getObjVal? k with | .ok .null => true | .error _ => true | _ => false
+
+def constOf (j : Json) : Except String Const := do
+  match (← kind j) with
+  | "int" => return .int (← getInt j "v")
+  | "float" => return .float (← getChars j "v")
+  | "bool" => return .bool (← getBool j "v")
+  | "str" => return .str (← getChars j "v")
+  | "none" => return .none
+  | "ellipsis" => return .ellipsis
+  | k => throw s!"bad-const: {k}"
+
+def constJ : Const → Json
+  | .int i => Json.mkObj [("k", "int"), ("v", int i)]
+  | .float r => Json.mkObj [("k", "float"), ("v", str r)]
+  | .bool b => Json.mkObj [("k", "bool"), ("v", Json.bool b)]
+  | .str s => Json.mkObj [("k", "str"), ("v", str s)]
+  | .none => Json.mkObj [("k", "none")]
+  | .ellipsis => Json.mkObj [("k", "ellipsis")]
+
+partial def texprOf (j : Json) : Except String TExpr := do
+  match (← kind j) with
+  | "name" => return .name (← getChars j "id")
+  | "const" => return .const (← constOf (← field j "c"))
+  | "sub" => return .sub (← texprOf (← field j "value")) (← texprOf (← field j "slice"))
+  | "tuple" => return .tuple (← (← getArr j "elts").toList.mapM texprOf)
+  | "attr" => return .attr (← texprOf (← field j "value")) (← getChars j "attr")
+  | "list" => return .list (← (← getArr j "elts").toList.mapM texprOf)
+  | k => throw s!"bad-texpr: {k}"
+
+partial def texprJ : TExpr → Json
+  | .name i => Json.mkObj [("k", "name"), ("id", str i)]
+  | .const c => Json.mkObj [("k", "const"), ("c", constJ c)]
+  | .sub v s => Json.mkObj [("k", "sub"), ("value", texprJ v), ("slice", texprJ s)]
+  | .tuple es => Json.mkObj [("k", "tuple"), ("elts", Json.arr (es.map texprJ).toArray)]
+  | .attr v a => Json.mkObj [("k", "attr"), ("value", texprJ v), ("attr", str a)]
+  | .list es => Json.mkObj [("k", "list"), ("elts", Json.arr (es.map texprJ).toArray)]
+
+def codeEvalOf (j : Json) : Except String CodeEval := do
+  match (← kind j) with
+  | "scalar" => return .scalar (← constOf (← field j "c"))
+  | "emptySeq" => return .emptySeq
+  | "single" => return .single (← constOf (← field j "c"))
+  | "multi" => return .multi (← getChars j "json")
+  | "opaque" => return .opaque (← getChars j "unparsed")
+  | k => throw s!"bad-codeeval: {k}"
+
+/-- the invariants of `Default` are enforced here: a `str` must not be code-quoted, a `code` must not be `(None)` -/
+def defaultOf (j : Json) : Except String Default := do
+  match (← kind j) with
+  | "int" => return .int (← getInt j "v")
+  | "float" => return .float (← getChars j "v")
+  | "bool" => return .bool (← getBool j "v")
+  | "str" =>
+    let s ← getChars j "v"
+    if codeQuoted s then throw "bad-default: code-quoted str" else return .str s
+  | "nonestr" => return .none
+  | "code" =>
+    let src ← getChars j "src"
+    if src == sParenNone || src.isEmpty then throw "bad-default: code (None)" else
+    return .code src (← codeEvalOf (← field j "ev"))
+  | k => throw s!"bad-default: {k}"
+
+def paramOf (j : Json) : Except String Param := do
+  let typ ← if isNull j "typ" then pure none else (do return some (← texprOf (← field j "typ")))
+  let dflt ← if isNull j "default" then pure none else (do return some (← defaultOf (← field j "default")))
+  return { name := ← getChars j "name", typ, doc := ← getChars j "doc", default := dflt }
+
+def irOf (j : Json) : Except String IR := do
+  let ps ← (← getArr j "params").toList.mapM paramOf
+  let ret ← if isNull j "returns" then pure none else (do return some (← paramOf (← field j "returns")))
+  return { name := ← getChars j "name", doc := ← getChars j "doc", params := ps, returns := ret }
+
+def valJ : Val → Json
+  | .c c => Json.mkObj [("k", "const"), ("c", constJ c)]
+  | .expr s => Json.mkObj [("k", "expr"), ("src", str s)]
+def optJ {α} (f : α → Json) : Option α → Json | none => Json.null | some a => f a
+def pairsJ {α} (f : α → Json) (l : List (Py.Str × α)) : Json :=
+  Json.arr (l.map (fun kv => Json.arr #[str kv.1, f kv.2])).toArray
+def exceptJ {α} (f : α → Json) : Except String α → Json
+  | .ok a => Json.mkObj [("ok", f a)]
+  | .error e => Json.mkObj [("error", Json.str e)]
+
+def stmtJ : ClassStmt → Json
+  | .annAssign n a v => Json.mkObj [("k", "annassign"), ("name", str n), ("ann", texprJ a), ("value", optJ valJ v)]
+  | .assign n v => Json.mkObj [("k", "assign"), ("name", str n), ("value", valJ v)]
+def classSemJ (s : ClassSem) : Json :=
+  Json.mkObj [("annotations", pairsJ texprJ s.annotations), ("values", pairsJ valJ s.values)]
+def argRecJ (a : ArgRec) : Json := Json.mkObj [("name", str a.name), ("ann", optJ texprJ a.ann)]
+def funcRecJ (f : FuncRec) : Json :=
+  Json.mkObj [("name", str f.name), ("args", Json.arr (f.args.map argRecJ).toArray),
+    ("defaults", Json.arr (f.defaults.map valJ).toArray), ("kwonly", Json.arr (f.kwonly.map argRecJ).toArray),
+    ("kwDefaults", Json.arr (f.kwDefaults.map valJ).toArray), ("kwarg", optStr f.kwarg), ("returns", optJ texprJ f.returns)]
+def kindJ : Kind → Json | .positional => "positional" | .kwOnly => "kwonly" | .varKw => "varkw"
+def sigParamJ (p : SigParam) : Json :=
+  Json.mkObj [("name", str p.name), ("kind", kindJ p.kind), ("ann", optJ texprJ p.ann), ("default", optJ valJ p.default)]
+def funcSemJ (s : FuncSem) : Json :=
+  Json.mkObj [("params", Json.arr (s.params.map sigParamJ).toArray), ("returns", optJ texprJ s.returns)]
+def constsJ (cs : List Const) : Json := Json.arr (cs.map constJ).toArray
+def addArgJ (a : AddArg) : Json :=
+  Json.mkObj [("flag", str a.flag), ("type", optStr a.type), ("choices", optJ constsJ a.choices), ("action", optStr a.action),
+    ("help", optStr a.help), ("required", Json.bool a.required), ("default", optJ constJ a.default)]
+def convJ : Conv → Json | .int => "int" | .float => "float" | .bool => "bool" | .str => "str"
+def actionJ (a : Action) : Json :=
+  Json.mkObj [("dest", str a.dest), ("conv", convJ a.conv), ("choices", optJ constsJ a.choices), ("default", optJ constJ a.default),
+    ("required", Json.bool a.required), ("help", optStr a.help), ("append", Json.bool a.append)]
+def rvalJ : RVal → Json
+  | .one c => Json.mkObj [("one", constJ c)]
+  | .many cs => Json.mkObj [("many", constsJ cs)]
+def nsJ (l : List (Py.Str × RVal)) : Json := pairsJ rvalJ l
+
+def funcCfgOf (j : Json) : Except String FuncCfg := do
+  let ft := match j.getObjVal? "functionType" with | .ok (.str s) => some s.toList | _ => none
+  return { typeAnnotations := ← getBool j "typeAnnotations", kwOnly := ← getBool j "kwOnly", functionType := ft }
+
+/-! ### domain descriptions -/
+def scalarOf (s : String) : Except String Scalar :=
+  match s with
+  | "int" => pure .int | "float" => pure .float | "bool" => pure .bool | "str" => pure .str
+  | k => throw s!"bad-scalar: {k}"
+def litMOf (j : Json) : Except String LitM := do
+  match (← kind j) with
+  | "s" => return .s (← getChars j "v")
+  | "i" => return .i (← getInt j "v")
+  | k => throw s!"bad-litm: {k}"
+def litMsOf (j : Json) : Except String (LitM × List LitM) := do
+  let ms ← (← getArr j "members").toList.mapM litMOf
+  match ms with
+  | m :: rest => return (m, rest)
+  | [] => throw "bad-literal: no members"
+def dtypOf (j : Json) : Except String DTyp := do
+  match (← kind j) with
+  | "scalar" => return .scalar (← scalarOf (← getStr j "s"))
+  | "optional" => return .optional (← scalarOf (← getStr j "s"))
+  | "union" =>
+    let ms ← (← getArr j "members").toList.mapM (fun x => do scalarOf (← x.getStr?))
+    match ms with
+    | a :: rest => return .union a rest
+    | [] => throw "bad-union"
+  | "list" => return .list (← scalarOf (← getStr j "s"))
+  | "literal" => let (m, ms) ← litMsOf j; return .literal m ms
+  | "optLiteral" => let (m, ms) ← litMsOf j; return .optLiteral m ms
+  | "annotated" => return .annotated (← scalarOf (← getStr j "s")) (← getChars j "note")
+  | "tupleEllipsis" => return .tupleEllipsis (← scalarOf (← getStr j "s"))
+  | "callableEllipsis" => return .callableEllipsis (← scalarOf (← getStr j "s"))
+  | k => throw s!"bad-dtyp: {k}"
+def ddefaultOf (j : Json) : Except String DDefault := do
+  match (← kind j) with
+  | "int" => return .int (← getInt j "v")
+  | "float" => return .float (← getChars j "v")
+  | "bool" => return .bool (← getBool j "v")
+  | "str" => return .str (← getChars j "v")
+  | "none" => return .none
+  | k => throw s!"bad-ddefault: {k}"
+def dparamOf (j : Json) : Except String DParam := do
+  let dflt ← if isNull j "default" then pure none else (do return some (← ddefaultOf (← field j "default")))
+  return { name := ← getChars j "name", typ := ← dtypOf (← field j "typ"), doc := ← getChars j "doc", default := dflt }
+def dirOf (j : Json) : Except String DIR := do
+  let ps ← (← getArr j "params").toList.mapM dparamOf
+  let ret ← if isNull j "returns" then pure none else (do
+    let r ← field j "returns"
+    return some (← dtypOf (← field r "typ"), ← getChars r "doc"))
+  return { name := ← getChars j "name", doc := ← getChars j "doc", params := ps, returns := ret }
+
+def defaultJ : Default → Json
+  | .int i => Json.mkObj [("k", "int"), ("v", int i)]
+  | .float r => Json.mkObj [("k", "float"), ("v", str r)]
+  | .bool b => Json.mkObj [("k", "bool"), ("v", Json.bool b)]
+  | .str s => Json.mkObj [("k", "str"), ("v", str s)]
+  | .none => Json.mkObj [("k", "nonestr")]
+  | .code src _ => Json.mkObj [("k", "code"), ("src", str src)]
+def paramJ (p : Param) : Json :=
+  Json.mkObj [("name", str p.name), ("typ", optJ texprJ p.typ), ("doc", str p.doc), ("default", optJ defaultJ p.default)]
+def irJ (ir : IR) : Json :=
+  Json.mkObj [("name", str ir.name), ("doc", str ir.doc), ("params", Json.arr (ir.params.map paramJ).toArray),
+    ("returns", optJ paramJ ir.returns)]
+
+def tokOf (j : Json) : Except String (Py.Str × Tok) := do
+  let a ← j.getArr?
+  return ((← a[0]!.getStr?).toList, classify (← a[1]!.getStr?).toList)
+
+def ops : List (String × Handler) := [
+  ("c04.class", fun j => do
+    let ir ← irOf (← field j "ir")
+    let bases := (← getArr j "bases").toList.filterMap (fun b => (b.getStr?).toOption.map String.toList)
+    match emitClass bases ir with
+    | .error e => return Json.mkObj [("error", Json.str e)]
+    | .ok c => return Json.mkObj [("name", str c.name), ("bases", strs c.bases),
+        ("body", Json.arr (c.body.map stmtJ).toArray), ("sem", classSemJ (classAttrs c))]),
+  ("c04.function", fun j => do
+    let ir ← irOf (← field j "ir")
+    let cfg ← funcCfgOf (← field j "cfg")
+    let f := emitFunction cfg ir
+    return Json.mkObj [("rec", funcRecJ f), ("sig", exceptJ funcSemJ (signature f))]),
+  ("c04.argparse", fun j => do
+    let ir ← irOf (← field j "ir")
+    let argvs ← (← getArr j "argvs").toList.mapM (fun av => do (← av.getArr?).toList.mapM tokOf)
+    let probes ← (← getArr j "probes").toList.mapM (fun p => do
+      let a ← p.getArr?
+      return ((← a[0]!.getNat?), (← a[1]!.getStr?).toList))
+    match emitArgparse ir with
+    | .error e => return Json.mkObj [("error", Json.str e)]
+    | .ok adds =>
+      match mapE actionOf adds with
+      | .error e => return Json.mkObj [("adds", Json.arr (adds.map addArgJ).toArray), ("actions", Json.mkObj [("error", Json.str e)])]
+      | .ok acts =>
+        return Json.mkObj [("adds", Json.arr (adds.map addArgJ).toArray),
+          ("actions", Json.mkObj [("ok", Json.arr (acts.map actionJ).toArray)]),
+          ("parses", Json.arr (argvs.map (fun av => exceptJ nsJ (parseArgs acts av))).toArray),
+          ("accepts", Json.arr (probes.map (fun p => match acts[p.1]? with
+              | some a => Json.bool (accepts a p.2)
+              | none => Json.null)).toArray)]),
+  ("c04.describe", fun j => do
+    let d ← dirOf (← field j "ir")
+    let cfg ← funcCfgOf (← field j "cfg")
+    let probes ← (← getArr j "probes").toList.mapM (fun p => do
+      let a ← p.getArr?
+      return ((← a[0]!.getNat?), (← a[1]!.getStr?).toList))
+    return Json.mkObj [("ir", irJ d.toIR), ("wf", Json.bool d.WF),
+      ("class", classSemJ (describeClass d)), ("sig", funcSemJ (describeSig cfg d)),
+      ("actions", Json.arr (d.params.map (fun p => Json.mkObj [("dest", str p.name), ("required", Json.bool (describedRequired p)),
+          ("default", optJ constJ (describedDefault p)), ("choices", optJ constsJ (describedChoices p.typ)),
+          ("help", optStr (describedHelp p)), ("cli", Json.bool p.typ.cli), ("append", Json.bool p.typ.isList)])).toArray),
+      ("parse_empty", exceptJ nsJ (describedParseEmpty d)),
+      ("legal", Json.arr (probes.map (fun p => match d.params[p.1]? with
+          | some q => Json.bool (q.typ.legalTok (classify p.2))
+          | none => Json.null)).toArray)])
+]
 end Driver.C04
